@@ -66,6 +66,16 @@ Section Tx.
       - apply nonneg_fin; auto.
       - rewrite supply_fin. rewrite <- HP. unfold Phi. reflexivity. }
     unfold exec_tx_body.
+    destruct (is_ent (t_kind t)) eqn:EN.
+    { (* enterprise: oracle verdict, fee 0, no balance effect *)
+      destruct Hpre as (_&Hs&Hr).
+      destruct (t_kind t) eqn:K; try discriminate EN. cbn [is_ent is_gov].
+      destruct (t_fddeny t).
+      - cbn [negb orb].
+        destruct (reset_account s sender (Some 0) (Some (t_nonce t))) as [s2|] eqn:R1; [|exact I].
+        destruct (reset_account_spec _ _ _ _ _ R1) as (N2&S2&Oth&Fb2&Fr2); auto; try lia.
+        apply finish_effect; auto; try congruence; lia.
+      - apply Fin; auto; lia. }
     destruct (is_gov (t_kind t)) eqn:G.
     - (* governance *)
       destruct (exec_governance is_name cfg bno s t sender receiver) as [[[s' sd'] rc']|] eqn:EG; [|exact I].
@@ -76,7 +86,8 @@ Section Tx.
         - eapply exec_unstake_post; eauto.
         - eapply exec_name_post; eauto; try (rewrite K; discriminate).
         - eapply exec_name_post; eauto; try (rewrite K; discriminate).
-        - eapply exec_name_post; eauto. }
+        - eapply exec_name_post; eauto.
+        - eapply exec_vote_post; eauto. }
       destruct Hpost as (I1&I2&N1&B1&B2&PP).
       apply Fin; auto; try lia.
     - destruct (match t_kind t with KFeeDeleg => true | _ => false end) eqn:FD.
